@@ -11,6 +11,7 @@ RULE = ("exhaustive: every layout of 0..3 runs with run lengths 0..3 (distinct c
         "entry i) x 9 `new` values (+3 plain strs containing SGR sequences on the layouts of <=2 runs and <=3 characters) (empty str, fmtstr(''), FmtStr() without chunks, 1-char str, multi-char str with a "
         "space, 2-char one-run FmtStr, 2-run FmtStr, 3-run FmtStr with an empty middle run, FmtStr with explicit-False "
         "attribute) x every 0 <= start <= end <= len+2 and end omitted; append of every `new` to every layout; plus "
+        "the exhaustive sweep again over runs made of double-width, zero-width, combining and control characters (\\n, \\t); "
         "seeded random cases with up to 6 runs of length 0..5 and random multi-run `new`. non-trivial = distinct "
         "(f, new, start, end) where something is inserted or a non-empty range is deleted")
 ASSUMPTIONS = ["0 <= start <= end (the property's range); negative offsets and end < start are outside the statement "
@@ -35,6 +36,9 @@ NEWS = [
 ]
 # plain str operands containing a complete SGR sequence (finding D27): str(red('X')), a bare sequence, a reset inside
 ESC_NEWS = [("s", "\x1b[31mX\x1b[39m"), ("s", "\x1b[31m"), ("s", "a\x1b[0mb")]
+
+
+WIDE = "\uff25\u0301\n\uff48\u200b\t\uff49\u754cx"
 
 
 def all_layouts():
@@ -62,11 +66,29 @@ def mk_cases(ctx):
             cases.append(dict(op="append", f=ch, new=new))
     ctx.exhaustive.append("splice/append over all layouts of <=3 runs of lengths 0..3 x %d new values x all "
                           "0<=start<=end<=len+2 and end omitted: %d cases" % (len(NEWS), len(cases)))
+    # runs containing double-width (U+FF25, U+FF48, U+FF49, U+754C), zero-width (U+0301, U+200B) and control characters
+    # (\n, \t): splice works on CHARACTER offsets - column widths (Chunk.width, which even raises for \n / \t) must
+    # play no role in locating start/end
+    n1 = 0
+    for lens in all_layouts():
+        if max(lens + (0,)) > 2:
+            continue
+        ch = chunks_for(lens, alphabet=WIDE)
+        n = sum(lens)
+        for new in (("s", "X"), ("s", ""), ("f", [("\uff38", {"bg": 46}), ("Y", {})]), ("s", "\u0301\n")):
+            for start in range(0, n + 3):
+                cases.append(dict(op="splice", f=ch, new=new, start=start, end=None))
+                for end in range(start, n + 3):
+                    cases.append(dict(op="splice", f=ch, new=new, start=start, end=end))
+                    n1 += 1
+            cases.append(dict(op="append", f=ch, new=new))
+    ctx.exhaustive.append("the same over layouts of <=3 runs of lengths 0..2 drawn from double-width / combining / zero-width / "
+                          "control characters x 4 new values: %d splice cases" % n1)
     r = ctx.rng
     alpha = "abcdefghijklmnopqrstuvwxyzABCDEFGHIJKLMNOPQRSTUVWXYZ0123456789"
     for _ in range(20000 if ctx.thorough else 3000):
         lens = tuple(r.randint(0, 5) for _ in range(r.randint(0, 6)))
-        ch = chunks_for(lens, alphabet=alpha, shift=r.randint(0, 6))
+        ch = chunks_for(lens, alphabet=(WIDE * 4 if r.random() < 0.15 else alpha), shift=r.randint(0, 6))
         n = sum(lens)
         q = r.random()
         if q < 0.04:
